@@ -108,7 +108,8 @@ func (s *Sched) StepNo() uint64 { return s.step }
 // SimTime is the simulated time since the start of the run.
 func (s *Sched) SimTime() time.Duration { return time.Since(s.start) }
 
-func goid() uint64 {
+// goidSlow parses the id from the header line of a stack dump (portable, about 1.5 us with deep stacks).
+func goidSlow() uint64 {
 	var buf [40]byte
 	n := runtime.Stack(buf[:], false)
 	// "goroutine 123 ["
